@@ -74,6 +74,7 @@ type runState struct {
 	assumeN  int
 	tryDepth int
 	fresh    int
+	fsys     *fsState
 	facts    map[string]bool // conditions already decided on this path
 }
 
